@@ -155,6 +155,12 @@ func (g *GBitcoindEstimator) estimateFee(targetBlocks uint32) (btcutil.Amount, e
 	// witnessScaleFactor.
 	satPerKw := satPerKB / witnessScaleFactor
 
+	// A zero estimate means that the backend has not enough data. Report it as
+	// such so that the caller uses the fallback fee rate instead of the floor.
+	if satPerKB == 0 {
+		return 0, nil
+	}
+
 	// Finally compare the fee to our minimum floor
 	minRelayFee := g.feeFloorSatPerKw
 	if g.minFeeManager != nil {
